@@ -39,6 +39,20 @@ Proof. intros db op apply init d. exact (clean_open_noop apply init d). Qed.
 Check C08_clean : C08_clean_statement.
 Print Assumptions C08_clean.
 
+(** The hypothesis "the data file is the image of the last completed checkpoint" cannot be dropped (recorded finding
+    C08-crash-inside-checkpoint): for the image in the middle of a checkpoint - pages and header written, log not yet
+    truncated - recovery replays a CREATE onto a catalog that already holds the table and fails, where the engine's
+    CREATE is modelled as it behaves (not idempotent).  The witness is the first commit of any database; it is
+    replayed on the engine on every run (the database does not open). *)
+Definition C08_window_statement : Prop :=
+  forall evs, recovered_view kv_apply_strict SAbsent (torn_checkpoint (run evs)) = spec_view kv_apply_strict SAbsent (run evs).
+Theorem C08_window_refuted : ~ C08_window_statement.
+Proof.
+  intro H. specialize (H first_commit). destruct torn_checkpoint_breaks as (A & _ & B). rewrite A, B in H. discriminate H.
+Qed.
+Check C08_window_refuted : ~ C08_window_statement.
+Print Assumptions C08_window_refuted.
+
 (** Non-vacuity: the image of [good_history] with the recovery interrupted after 2 and then after 1 of its records. *)
 Example C08_example :
   recovered_view kv_apply None (interrupted (interrupted (e_disk (run good_history)) 2) 1) = Some [(2, 9%Z); (4, 1%Z)]
